@@ -1,5 +1,6 @@
 SPECIFICATION Spec
 INVARIANT RoundTrip
 INVARIANT Injective
+INVARIANT DomOK
 INVARIANT EmitReplay
 CHECK_DEADLOCK FALSE
